@@ -310,6 +310,8 @@ func (rs *RequestServer) packetWorker(ctx context.Context, pktChan chan orderedR
 			request, ok := rs.getRequest(handle)
 			if !ok {
 				rpkt = statusFromError(pkt.id(), EBADF)
+			} else if !request.servesPacket(pkt) {
+				rpkt = statusFromError(pkt.id(), errors.New("request does not fit the kind of its handle"))
 			} else {
 				rpkt = request.call(rs.Handlers, pkt, rs.pktMgr.alloc, orderID, rs.maxTxPacket)
 			}
